@@ -20,7 +20,10 @@ def check(ctx):
   r1(ctx)
   r2_r3(ctx)
   r4(ctx)
-  from . import c12
+  from . import c12, c02, c13
+  ctx.rule('C02.R4', 'shared with C02: a reply is routed by the tag decoded from its own frame to the entry registered under that tag, which is popped before the reply is delivered')
+  c02.r4(ctx)
+  c13.r4_bits(ctx)
   ctx.rule('C12.R5', 'shared with C12: a queued frame is written only if _HandleTimeout reported it live (otherwise its tag was already returned to the pool)')
   c12.r5(ctx, backpressure=False)    # the back-pressure clause concerns transmission after TimeoutError (C12), not tag reuse
 
